@@ -9,7 +9,9 @@
      callbacks/create.go  ConvertToCreateValues (tracked times filled, OnConflict.UpdateAll expansion)
      callbacks/update.go  ConvertToAssignments (Save: every column; map payload + tracked update time)
      clause/on_conflict.go, soft_delete.go (deleted_at IS NULL on queries and updates)
-   The model type is the harness's Acct{ID, Name, Age, Email, CreatedAt, UpdatedAt, DeletedAt}.
+   The model type is the harness's Acct{ID, Name, Age `default:0`, Email `default:''`, CreatedAt,
+   UpdatedAt, DeletedAt}: the two literal zero defaults change nothing on the tree as it is (the column
+   is inserted and, under UpdateAll, updated like any other; a zero value is written as the default = zero).
    Times are Z (seconds after a base, 0 = zero time), the pinned NowFunc value is the input [now].
    No proofs here. *)
 From Verif Require Import Base.
@@ -208,7 +210,8 @@ Inductive fin :=
 | FSave (v : rec)
 | FCreateOC (ru : rule) (v : rec)
 | FInit (ic : list cond)
-| FFoc (ic : list cond).
+| FFoc (ic : list cond)
+| FSaveSlice (vs : list rec).   (* Save(&[]Acct{...}): one INSERT ... ON CONFLICT UPDATE ALL, keys handed back *)
 
 (* res_writes = number of INSERT/UPDATE statements sent to the driver (failed ones included) *)
 Record result := mk_result { res_ret : rec; res_ra : Z; res_err : bool; res_writes : Z; res_tbl : table }.
@@ -291,6 +294,14 @@ Definition first_or_create (keep : bool) (t : table) (now : Z) (h : handle) (ic 
       end
   end.
 
+(* DB.Save on a slice: Create with OnConflict{UpdateAll} and gorm:update_track_time — per element the
+   same row the struct fallback writes (updated_at := now, zero created_at := now); SQLite processes the
+   VALUES rows in order (a zero key becomes max(key)+1 at that moment) and RETURNING hands every row's
+   key back into the caller's elements, in order *)
+Definition save_slice_run (t : table) (now : Z) (vs : list rec) : table * list rec :=
+  fold_left (fun acc v => let r := create (fst acc) now (Some RAll) (with_uat now v) in
+                          (res_tbl r, snd acc ++ [res_ret r])) vs (t, []).
+
 Definition step (keep : bool) (t : table) (now : Z) (ch : list cel) (f : fin) : result :=
   let h := run_chain keep ch in
   match f with
@@ -298,7 +309,13 @@ Definition step (keep : bool) (t : table) (now : Z) (ch : list cel) (f : fin) : 
   | FCreateOC ru v => create t now (Some ru) v
   | FInit ic => first_or_init keep t h ic
   | FFoc ic => first_or_create keep t now h ic
+  | FSaveSlice vs => let run := save_slice_run t now vs in
+                     mk_result (last (snd run) zero_rec) (Z.of_nat (length vs)) false 1 (fst run)
   end.
+
+(* the caller's slice after the call (FSaveSlice only) *)
+Definition step_rets (t : table) (now : Z) (f : fin) : list rec :=
+  match f with FSaveSlice vs => snd (save_slice_run t now vs) | _ => [] end.
 
 (* the tree as it is: Statement.clone copies attrs and assigns *)
 Definition step_repo := step true.
